@@ -2,7 +2,7 @@
 from . import sched as S, elements
 
 def check(ctx):
-    S.run_tables(ctx, 'C13', [('SP', '__init__'), ('SP', 'run'), ('MultiQueueScheduler', 'put'),
+    S.run_tables(ctx, 'C13', [('SP', '__init__'), ('SP', 'run'), ('SP', 'put'), ('MultiQueueScheduler', 'put'),
                               ('MultiQueueScheduler', '__init__'), ('Scheduler', 'send_packet'),
                               ('Scheduler', 'add_packet_to_queue'), ('Scheduler', 'total_packets')])
     elements.sp_rescan(ctx, 'C13')
